@@ -340,3 +340,57 @@ func VH_C09_Retry(z int) {
 		vAssert(err == io.ErrNoProgress, "100 consecutive empty reads are reported as io.ErrNoProgress")
 	}
 }
+
+// VH_C09_RealSize: the reader at its real buffer size (run without the
+// reduced-buffer overlay): a first line of length total around the buffer size
+// and its multiples, two bytes near the buffer boundary being either ordinary
+// bytes or newlines, delivered whole or in chunks, followed by a short line. The
+// lines returned are the stream cut at its newlines.
+//
+//verif:prop C09
+//verif:realsize
+//verif:param total 16382..16386,32767..32769,49153
+//verif:param chunk 0,16384,4096,1000
+//verif:maxsteps 400000000
+func VH_C09_RealSize(total, chunk int) {
+	data := make([]byte, 0, total+5)
+	for i := 0; i < total-1; i++ {
+		data = append(data, 'x')
+	}
+	data = append(data, '\n')
+	data = append(data, []byte("tail\n")...)
+	// two symbolic bytes around the first buffer boundary
+	data[16381] = vChoose("b16381", "x\n")
+	if total > 16385 {
+		data[16384] = vChoose("b16384", "x\n")
+	}
+	f := &vhFeeder{data: data, chunk: chunk}
+	r := &reader{rd: f}
+	pos := 0
+	for iter := 0; iter < 8; iter++ {
+		d, err := r.readLine()
+		// expected: up to and including the next newline
+		end := pos
+		for end < len(data) {
+			end++
+			if data[end-1] == '\n' {
+				break
+			}
+		}
+		vAssert(len(d) == end-pos, "line length is the distance to the next newline")
+		if len(d) == end-pos {
+			same := true
+			for i := range d {
+				same = vAnd(same, d[i] == data[pos+i])
+			}
+			vAssert(same, "line content reproduces the stream")
+		}
+		pos += len(d)
+		if err != nil {
+			vAssert(err == io.EOF && pos == len(data), "EOF after the whole stream")
+			break
+		}
+	}
+	vReach("long lines read at the real buffer size")
+	vAssert(pos == len(data), "the whole stream has been returned")
+}
